@@ -99,13 +99,14 @@ Pos(c, s, w) == <<Rat((5 * O[1] + w * TDir(c)[1] + s * NDir(c)[1]) * U, 5), Rat(
 Doc(c) ==
   World(Cartesian,
         <<Line(IF c.kind = "fault" THEN "fault" ELSE "subducting plate", "line",
-               <<Pos(c, 0, 0), Pos(c, 0, 5 * TrenchLen5)>>, Pos(c, 20, 25), c.mind * U, 1500 * Km,
+               IF c.mid THEN <<Pos(c, 0, 0), Pos(c, 0, 25), Pos(c, 0, 5 * TrenchLen5)>> ELSE <<Pos(c, 0, 0), Pos(c, 0, 5 * TrenchLen5)>>,
+               Pos(c, 20, 25), c.mind * U, 1500 * Km,
                [i \in 1..Len(c.segs) |-> Segment(c.segs[i].len * U, <<c.thick[1] * U, c.thick[2] * U>>, <<c.trunc[1] * U, c.trunc[2] * U>>, <<DipTerm(c.segs[i].dip)>>)],
                <<>>, <<CUniform(<<1>>, "replace") @@ ((IF c.kind = "fault" THEN "min distance fault center" ELSE "min distance slab top") :> -1000 * Km)>>, <<>>, <<>>)>>)
 
 ProbeS == {5 * k : k \in -3..6}
 ProbeZ == {5 * k : k \in 0..7} \cup {2, 13}
-ProbeW == {10, 25, 40}
+ProbeW == {10, 24, 25, 40}
 
 Rows(c) ==
   LET ps == SetToSeq(ProbeS \X ProbeZ \X ProbeW) IN
@@ -123,7 +124,7 @@ Rows(c) ==
 
 Behaviour(c) ==
   LET rs == Rows(c) IN
-  [id |-> <<"slab", c>>, labels |-> <<"slab-geometry", c.kind, "segs" \o ToString(Len(c.segs))>>,
+  [id |-> <<"slab", c>>, labels |-> <<"slab-geometry", c.kind, "segs" \o ToString(Len(c.segs)), IF c.mid THEN "collinear-middle-coordinate" ELSE "two-coordinates">>,
    steps |-> << [op |-> "create", h |-> 1, wb |-> Doc(c)],
                 [op |-> "dtable", h |-> 1, name |-> "line", rel |-> Dec(1, -6), abs |-> 1,
                  rows |-> [k \in 1..Len(rs) |-> <<rs[k].xy[1], rs[k].xy[2], HM - rs[k].z * U, rs[k].z * U,
@@ -218,7 +219,8 @@ VARIABLE cfg
 (* thickness and top truncation are pairs <<at the start, at the end>> of every segment, varying linearly along it *)
 Thicks == {<<5, 5>>, <<10, 5>>, <<5, 10>>}
 Truncs == {<<0, 0>>, <<-5, -5>>, <<0, 3>>}
-Init == cfg \in [kind : Kinds, segs : {<<s>> : s \in Seg}, thick : Thicks, trunc : Truncs, mind : {0, 10}, dir : 1..3, side : Sides]
+(* mid: the straight trench is given by three coordinates, the middle one exactly on the line (at w = 25) *)
+Init == cfg \in [kind : Kinds, segs : {<<s>> : s \in Seg}, thick : Thicks, trunc : Truncs, mind : {0, 10}, dir : 1..3, side : Sides, mid : BOOLEAN]
 Next == Len(cfg.segs) < MaxSegments /\ \E s \in Seg : cfg' = [cfg EXCEPT !.segs = Append(@, s)]
 (* the construction is self-consistent: segments chain, the along-distance is continuous across segment ends *)
 ChainOK == \A i \in 1..(Len(cfg.segs) - 1) :
